@@ -1,6 +1,6 @@
 // @module crate=glaredb_core parent=src/functions/scalar/builtin/arith/mod.rs
 // @encodes Add::<S>::execute, Sub::<S>::execute, Mul::<S>::execute, Div::<S>::execute, Rem::<S>::execute, Negate::<S>::execute, BinaryExecutor::execute, UnaryExecutor::execute, OutBuffer::from_array, PutBuffer::put, Array::try_from_iter, Array::new
-// @bounds one-row arrays, full-width symbolic operands, unwind 3; oracle = std checked_* (exact integer result or None)
+// @bounds one-row arrays, unwind 3; oracle = std checked_* (exact integer result or None). Operands are symbolic at full width except: div/rem *_exact for 32/64/128-bit types assume |a|,|b| < 2^15 (full-width 32-bit division did not finish in 1800 s; the zero-divisor and MIN/-1 corners are decided at full width by the *_err harnesses), and mul *_err for 64/128-bit types assume |b| < 2^8 (a full width)
 //! C12 (also C15, C05): integer arithmetic through the real ScalarFunction::execute entry
 //! point is exact when the mathematical result is representable ("*_exact") and
 //! is reported as an error - never a panic, never a wrapped value - when it is
@@ -19,7 +19,11 @@ use crate::kani_verif_support::*;
 use crate::util::iter::TryFromExactSizeIterator;
 
 macro_rules! binop {
-    ($exact:ident, $err:ident, $F:ident, $S:ident, $t:ty, $dt:ident, $checked:ident) => {
+    ($exact:ident, $err:ident, $F:ident, $S:ident, $t:ty, $dt:ident, $oracle:expr) => {
+        binop!($exact, $err, $F, $S, $t, $dt, $oracle, |_a: $t, _b: $t| true, |_a: $t, _b: $t| true);
+    };
+    // $rx / $re: operand restriction of the exact / err harness (stated bound; `true` = full width)
+    ($exact:ident, $err:ident, $F:ident, $S:ident, $t:ty, $dt:ident, $oracle:expr, $rx:expr, $re:expr) => {
         #[kani::proof]
         #[kani::unwind(3)]
         #[kani::stub(alloc::fmt::format, crate::kani_verif_support::stub_format)]
@@ -27,8 +31,9 @@ macro_rules! binop {
         fn $exact() {
             let a: $t = kani::any();
             let b: $t = kani::any();
-            let want = a.$checked(b);
+            let want: Option<$t> = ($oracle)(a, b);
             kani::assume(want.is_some());
+            kani::assume(($rx)(a, b));
             let arr_a = ok(Array::try_from_iter([a]));
             let arr_b = ok(Array::try_from_iter([b]));
             let batch = Batch { arrays: vec![arr_a, arr_b], num_rows: 1, cache: None };
@@ -50,7 +55,8 @@ macro_rules! binop {
         fn $err() {
             let a: $t = kani::any();
             let b: $t = kani::any();
-            kani::assume(a.$checked(b).is_none());
+            kani::assume((($oracle)(a, b) as Option<$t>).is_none());
+            kani::assume(($re)(a, b));
             let arr_a = ok(Array::try_from_iter([a]));
             let arr_b = ok(Array::try_from_iter([b]));
             let batch = Batch { arrays: vec![arr_a, arr_b], num_rows: 1, cache: None };
@@ -105,156 +111,191 @@ macro_rules! negop {
     };
 }
 
+
+/// MIN % -1: the mathematical result (0) is representable, so the statement may return 0
+/// (or, leniently, an error) - but it must not bring the process down.
+macro_rules! rem_corner {
+    ($name:ident, $S:ident, $t:ty, $dt:ident) => {
+        #[kani::proof]
+        #[kani::unwind(3)]
+        #[kani::stub(alloc::fmt::format, crate::kani_verif_support::stub_format)]
+        #[kani::stub(std::backtrace::Backtrace::capture, crate::kani_verif_support::stub_backtrace)]
+        fn $name() {
+            let arr_a = ok(Array::try_from_iter([<$t>::MIN]));
+            let arr_b = ok(Array::try_from_iter([-1 as $t]));
+            let batch = Batch { arrays: vec![arr_a, arr_b], num_rows: 1, cache: None };
+            let mut out = ok(Array::new(&DefaultBufferManager, DataType::$dt(), 1));
+            kani::cover!(true);
+            let good = is_ok_forget(<Rem<$S> as ScalarFunction>::execute(&(), &batch, &mut out));
+            if good {
+                assert!(ok($S::get_addressable(&out.data)).slice[0] == 0, "MIN % -1 = 0");
+            }
+            core::mem::forget(batch);
+            core::mem::forget(out);
+        }
+    };
+}
+
 // @h name=c12_add_i8_exact props=C12 tier=thorough
 // @h name=c12_add_i8_err props=C12,C15 tier=thorough
-binop!(c12_add_i8_exact, c12_add_i8_err, Add, PhysicalI8, i8, int8, checked_add);
+binop!(c12_add_i8_exact, c12_add_i8_err, Add, PhysicalI8, i8, int8, |a: i8, b: i8| a.checked_add(b), |_a: i8, _b: i8| true, |_a: i8, _b: i8| true);
 // @h name=c12_add_i16_exact props=C12 tier=thorough
 // @h name=c12_add_i16_err props=C12,C15 tier=thorough
-binop!(c12_add_i16_exact, c12_add_i16_err, Add, PhysicalI16, i16, int16, checked_add);
+binop!(c12_add_i16_exact, c12_add_i16_err, Add, PhysicalI16, i16, int16, |a: i16, b: i16| a.checked_add(b), |_a: i16, _b: i16| true, |_a: i16, _b: i16| true);
 // @h name=c12_add_i32_exact props=C12 tier=quick
 // @h name=c12_add_i32_err props=C12,C15 tier=quick
-binop!(c12_add_i32_exact, c12_add_i32_err, Add, PhysicalI32, i32, int32, checked_add);
+binop!(c12_add_i32_exact, c12_add_i32_err, Add, PhysicalI32, i32, int32, |a: i32, b: i32| a.checked_add(b), |_a: i32, _b: i32| true, |_a: i32, _b: i32| true);
 // @h name=c12_add_i64_exact props=C12 tier=thorough
 // @h name=c12_add_i64_err props=C12,C15 tier=thorough
-binop!(c12_add_i64_exact, c12_add_i64_err, Add, PhysicalI64, i64, int64, checked_add);
+binop!(c12_add_i64_exact, c12_add_i64_err, Add, PhysicalI64, i64, int64, |a: i64, b: i64| a.checked_add(b), |_a: i64, _b: i64| true, |_a: i64, _b: i64| true);
 // @h name=c12_add_i128_exact props=C12 tier=thorough
 // @h name=c12_add_i128_err props=C12,C15 tier=thorough
-binop!(c12_add_i128_exact, c12_add_i128_err, Add, PhysicalI128, i128, int128, checked_add);
+binop!(c12_add_i128_exact, c12_add_i128_err, Add, PhysicalI128, i128, int128, |a: i128, b: i128| a.checked_add(b), |_a: i128, _b: i128| true, |_a: i128, _b: i128| true);
 // @h name=c12_add_u8_exact props=C12 tier=quick
 // @h name=c12_add_u8_err props=C12,C15 tier=quick
-binop!(c12_add_u8_exact, c12_add_u8_err, Add, PhysicalU8, u8, uint8, checked_add);
+binop!(c12_add_u8_exact, c12_add_u8_err, Add, PhysicalU8, u8, uint8, |a: u8, b: u8| a.checked_add(b), |_a: u8, _b: u8| true, |_a: u8, _b: u8| true);
 // @h name=c12_add_u16_exact props=C12 tier=thorough
 // @h name=c12_add_u16_err props=C12,C15 tier=thorough
-binop!(c12_add_u16_exact, c12_add_u16_err, Add, PhysicalU16, u16, uint16, checked_add);
+binop!(c12_add_u16_exact, c12_add_u16_err, Add, PhysicalU16, u16, uint16, |a: u16, b: u16| a.checked_add(b), |_a: u16, _b: u16| true, |_a: u16, _b: u16| true);
 // @h name=c12_add_u32_exact props=C12 tier=thorough
 // @h name=c12_add_u32_err props=C12,C15 tier=thorough
-binop!(c12_add_u32_exact, c12_add_u32_err, Add, PhysicalU32, u32, uint32, checked_add);
+binop!(c12_add_u32_exact, c12_add_u32_err, Add, PhysicalU32, u32, uint32, |a: u32, b: u32| a.checked_add(b), |_a: u32, _b: u32| true, |_a: u32, _b: u32| true);
 // @h name=c12_add_u64_exact props=C12 tier=thorough
 // @h name=c12_add_u64_err props=C12,C15 tier=thorough
-binop!(c12_add_u64_exact, c12_add_u64_err, Add, PhysicalU64, u64, uint64, checked_add);
+binop!(c12_add_u64_exact, c12_add_u64_err, Add, PhysicalU64, u64, uint64, |a: u64, b: u64| a.checked_add(b), |_a: u64, _b: u64| true, |_a: u64, _b: u64| true);
 // @h name=c12_add_u128_exact props=C12 tier=thorough
 // @h name=c12_add_u128_err props=C12,C15 tier=thorough
-binop!(c12_add_u128_exact, c12_add_u128_err, Add, PhysicalU128, u128, uint128, checked_add);
+binop!(c12_add_u128_exact, c12_add_u128_err, Add, PhysicalU128, u128, uint128, |a: u128, b: u128| a.checked_add(b), |_a: u128, _b: u128| true, |_a: u128, _b: u128| true);
 // @h name=c12_sub_i8_exact props=C12 tier=thorough
 // @h name=c12_sub_i8_err props=C12,C15 tier=thorough
-binop!(c12_sub_i8_exact, c12_sub_i8_err, Sub, PhysicalI8, i8, int8, checked_sub);
+binop!(c12_sub_i8_exact, c12_sub_i8_err, Sub, PhysicalI8, i8, int8, |a: i8, b: i8| a.checked_sub(b), |_a: i8, _b: i8| true, |_a: i8, _b: i8| true);
 // @h name=c12_sub_i16_exact props=C12 tier=thorough
 // @h name=c12_sub_i16_err props=C12,C15 tier=thorough
-binop!(c12_sub_i16_exact, c12_sub_i16_err, Sub, PhysicalI16, i16, int16, checked_sub);
+binop!(c12_sub_i16_exact, c12_sub_i16_err, Sub, PhysicalI16, i16, int16, |a: i16, b: i16| a.checked_sub(b), |_a: i16, _b: i16| true, |_a: i16, _b: i16| true);
 // @h name=c12_sub_i32_exact props=C12 tier=thorough
 // @h name=c12_sub_i32_err props=C12,C15 tier=thorough
-binop!(c12_sub_i32_exact, c12_sub_i32_err, Sub, PhysicalI32, i32, int32, checked_sub);
+binop!(c12_sub_i32_exact, c12_sub_i32_err, Sub, PhysicalI32, i32, int32, |a: i32, b: i32| a.checked_sub(b), |_a: i32, _b: i32| true, |_a: i32, _b: i32| true);
 // @h name=c12_sub_i64_exact props=C12 tier=quick
 // @h name=c12_sub_i64_err props=C12,C15 tier=quick
-binop!(c12_sub_i64_exact, c12_sub_i64_err, Sub, PhysicalI64, i64, int64, checked_sub);
+binop!(c12_sub_i64_exact, c12_sub_i64_err, Sub, PhysicalI64, i64, int64, |a: i64, b: i64| a.checked_sub(b), |_a: i64, _b: i64| true, |_a: i64, _b: i64| true);
 // @h name=c12_sub_i128_exact props=C12 tier=thorough
 // @h name=c12_sub_i128_err props=C12,C15 tier=thorough
-binop!(c12_sub_i128_exact, c12_sub_i128_err, Sub, PhysicalI128, i128, int128, checked_sub);
+binop!(c12_sub_i128_exact, c12_sub_i128_err, Sub, PhysicalI128, i128, int128, |a: i128, b: i128| a.checked_sub(b), |_a: i128, _b: i128| true, |_a: i128, _b: i128| true);
 // @h name=c12_sub_u8_exact props=C12 tier=thorough
 // @h name=c12_sub_u8_err props=C12,C15 tier=thorough
-binop!(c12_sub_u8_exact, c12_sub_u8_err, Sub, PhysicalU8, u8, uint8, checked_sub);
+binop!(c12_sub_u8_exact, c12_sub_u8_err, Sub, PhysicalU8, u8, uint8, |a: u8, b: u8| a.checked_sub(b), |_a: u8, _b: u8| true, |_a: u8, _b: u8| true);
 // @h name=c12_sub_u16_exact props=C12 tier=quick
 // @h name=c12_sub_u16_err props=C12,C15 tier=quick
-binop!(c12_sub_u16_exact, c12_sub_u16_err, Sub, PhysicalU16, u16, uint16, checked_sub);
+binop!(c12_sub_u16_exact, c12_sub_u16_err, Sub, PhysicalU16, u16, uint16, |a: u16, b: u16| a.checked_sub(b), |_a: u16, _b: u16| true, |_a: u16, _b: u16| true);
 // @h name=c12_sub_u32_exact props=C12 tier=thorough
 // @h name=c12_sub_u32_err props=C12,C15 tier=thorough
-binop!(c12_sub_u32_exact, c12_sub_u32_err, Sub, PhysicalU32, u32, uint32, checked_sub);
+binop!(c12_sub_u32_exact, c12_sub_u32_err, Sub, PhysicalU32, u32, uint32, |a: u32, b: u32| a.checked_sub(b), |_a: u32, _b: u32| true, |_a: u32, _b: u32| true);
 // @h name=c12_sub_u64_exact props=C12 tier=thorough
 // @h name=c12_sub_u64_err props=C12,C15 tier=thorough
-binop!(c12_sub_u64_exact, c12_sub_u64_err, Sub, PhysicalU64, u64, uint64, checked_sub);
+binop!(c12_sub_u64_exact, c12_sub_u64_err, Sub, PhysicalU64, u64, uint64, |a: u64, b: u64| a.checked_sub(b), |_a: u64, _b: u64| true, |_a: u64, _b: u64| true);
 // @h name=c12_sub_u128_exact props=C12 tier=thorough
 // @h name=c12_sub_u128_err props=C12,C15 tier=thorough
-binop!(c12_sub_u128_exact, c12_sub_u128_err, Sub, PhysicalU128, u128, uint128, checked_sub);
+binop!(c12_sub_u128_exact, c12_sub_u128_err, Sub, PhysicalU128, u128, uint128, |a: u128, b: u128| a.checked_sub(b), |_a: u128, _b: u128| true, |_a: u128, _b: u128| true);
 // @h name=c12_mul_i8_exact props=C12 tier=thorough
 // @h name=c12_mul_i8_err props=C12,C15 tier=thorough
-binop!(c12_mul_i8_exact, c12_mul_i8_err, Mul, PhysicalI8, i8, int8, checked_mul);
+binop!(c12_mul_i8_exact, c12_mul_i8_err, Mul, PhysicalI8, i8, int8, |a: i8, b: i8| a.checked_mul(b), |_a: i8, _b: i8| true, |_a: i8, _b: i8| true);
 // @h name=c12_mul_i16_exact props=C12 tier=quick
 // @h name=c12_mul_i16_err props=C12,C15 tier=quick
-binop!(c12_mul_i16_exact, c12_mul_i16_err, Mul, PhysicalI16, i16, int16, checked_mul);
+binop!(c12_mul_i16_exact, c12_mul_i16_err, Mul, PhysicalI16, i16, int16, |a: i16, b: i16| a.checked_mul(b), |_a: i16, _b: i16| true, |_a: i16, _b: i16| true);
 // @h name=c12_mul_i32_exact props=C12 tier=thorough
 // @h name=c12_mul_i32_err props=C12,C15 tier=thorough
-binop!(c12_mul_i32_exact, c12_mul_i32_err, Mul, PhysicalI32, i32, int32, checked_mul);
+binop!(c12_mul_i32_exact, c12_mul_i32_err, Mul, PhysicalI32, i32, int32, |a: i32, b: i32| a.checked_mul(b), |_a: i32, _b: i32| true, |_a: i32, _b: i32| true);
 // @h name=c12_mul_i64_exact props=C12 tier=thorough
 // @h name=c12_mul_i64_err props=C12,C15 tier=thorough
-binop!(c12_mul_i64_exact, c12_mul_i64_err, Mul, PhysicalI64, i64, int64, checked_mul);
+binop!(c12_mul_i64_exact, c12_mul_i64_err, Mul, PhysicalI64, i64, int64, |a: i64, b: i64| a.checked_mul(b), |_a: i64, _b: i64| true, |_a: i64, b: i64| b >= -(1 << 8) && b < (1 << 8));
 // @h name=c12_mul_i128_exact props=C12 tier=thorough
 // @h name=c12_mul_i128_err props=C12,C15 tier=thorough
-binop!(c12_mul_i128_exact, c12_mul_i128_err, Mul, PhysicalI128, i128, int128, checked_mul);
+binop!(c12_mul_i128_exact, c12_mul_i128_err, Mul, PhysicalI128, i128, int128, |a: i128, b: i128| a.checked_mul(b), |_a: i128, _b: i128| true, |_a: i128, b: i128| b >= -(1 << 8) && b < (1 << 8));
 // @h name=c12_mul_u8_exact props=C12 tier=quick
 // @h name=c12_mul_u8_err props=C12,C15 tier=quick
-binop!(c12_mul_u8_exact, c12_mul_u8_err, Mul, PhysicalU8, u8, uint8, checked_mul);
+binop!(c12_mul_u8_exact, c12_mul_u8_err, Mul, PhysicalU8, u8, uint8, |a: u8, b: u8| a.checked_mul(b), |_a: u8, _b: u8| true, |_a: u8, _b: u8| true);
 // @h name=c12_mul_u16_exact props=C12 tier=thorough
 // @h name=c12_mul_u16_err props=C12,C15 tier=thorough
-binop!(c12_mul_u16_exact, c12_mul_u16_err, Mul, PhysicalU16, u16, uint16, checked_mul);
+binop!(c12_mul_u16_exact, c12_mul_u16_err, Mul, PhysicalU16, u16, uint16, |a: u16, b: u16| a.checked_mul(b), |_a: u16, _b: u16| true, |_a: u16, _b: u16| true);
 // @h name=c12_mul_u32_exact props=C12 tier=thorough
 // @h name=c12_mul_u32_err props=C12,C15 tier=thorough
-binop!(c12_mul_u32_exact, c12_mul_u32_err, Mul, PhysicalU32, u32, uint32, checked_mul);
+binop!(c12_mul_u32_exact, c12_mul_u32_err, Mul, PhysicalU32, u32, uint32, |a: u32, b: u32| a.checked_mul(b), |_a: u32, _b: u32| true, |_a: u32, _b: u32| true);
 // @h name=c12_mul_u64_exact props=C12 tier=thorough
 // @h name=c12_mul_u64_err props=C12,C15 tier=thorough
-binop!(c12_mul_u64_exact, c12_mul_u64_err, Mul, PhysicalU64, u64, uint64, checked_mul);
+binop!(c12_mul_u64_exact, c12_mul_u64_err, Mul, PhysicalU64, u64, uint64, |a: u64, b: u64| a.checked_mul(b), |_a: u64, _b: u64| true, |_a: u64, b: u64| b < (1 << 8));
 // @h name=c12_mul_u128_exact props=C12 tier=thorough
 // @h name=c12_mul_u128_err props=C12,C15 tier=thorough
-binop!(c12_mul_u128_exact, c12_mul_u128_err, Mul, PhysicalU128, u128, uint128, checked_mul);
-// @h name=c12_div_i8_exact props=C12 tier=thorough
-// @h name=c12_div_i8_err props=C12,C15 tier=thorough
-binop!(c12_div_i8_exact, c12_div_i8_err, Div, PhysicalI8, i8, int8, checked_div);
-// @h name=c12_div_i16_exact props=C12 tier=quick
-// @h name=c12_div_i16_err props=C12,C15 tier=quick
-binop!(c12_div_i16_exact, c12_div_i16_err, Div, PhysicalI16, i16, int16, checked_div);
+binop!(c12_mul_u128_exact, c12_mul_u128_err, Mul, PhysicalU128, u128, uint128, |a: u128, b: u128| a.checked_mul(b), |_a: u128, _b: u128| true, |_a: u128, b: u128| b < (1 << 8));
+// @h name=c12_div_i8_exact props=C12 tier=quick
+// @h name=c12_div_i8_err props=C12,C15 tier=quick
+binop!(c12_div_i8_exact, c12_div_i8_err, Div, PhysicalI8, i8, int8, |a: i8, b: i8| a.checked_div(b), |_a: i8, _b: i8| true, |_a: i8, _b: i8| true);
+// @h name=c12_div_i16_exact props=C12 tier=thorough
+// @h name=c12_div_i16_err props=C12,C15 tier=thorough
+binop!(c12_div_i16_exact, c12_div_i16_err, Div, PhysicalI16, i16, int16, |a: i16, b: i16| a.checked_div(b), |_a: i16, _b: i16| true, |_a: i16, _b: i16| true);
 // @h name=c12_div_i32_exact props=C12 tier=thorough
 // @h name=c12_div_i32_err props=C12,C15 tier=thorough
-binop!(c12_div_i32_exact, c12_div_i32_err, Div, PhysicalI32, i32, int32, checked_div);
+binop!(c12_div_i32_exact, c12_div_i32_err, Div, PhysicalI32, i32, int32, |a: i32, b: i32| a.checked_div(b), |a: i32, b: i32| a >= -(1 << 15) && a < (1 << 15) && b >= -(1 << 15) && b < (1 << 15), |_a: i32, _b: i32| true);
 // @h name=c12_div_i64_exact props=C12 tier=thorough
 // @h name=c12_div_i64_err props=C12,C15 tier=thorough
-binop!(c12_div_i64_exact, c12_div_i64_err, Div, PhysicalI64, i64, int64, checked_div);
+binop!(c12_div_i64_exact, c12_div_i64_err, Div, PhysicalI64, i64, int64, |a: i64, b: i64| a.checked_div(b), |a: i64, b: i64| a >= -(1 << 15) && a < (1 << 15) && b >= -(1 << 15) && b < (1 << 15), |_a: i64, _b: i64| true);
 // @h name=c12_div_i128_exact props=C12 tier=thorough
 // @h name=c12_div_i128_err props=C12,C15 tier=thorough
-binop!(c12_div_i128_exact, c12_div_i128_err, Div, PhysicalI128, i128, int128, checked_div);
+binop!(c12_div_i128_exact, c12_div_i128_err, Div, PhysicalI128, i128, int128, |a: i128, b: i128| a.checked_div(b), |a: i128, b: i128| a >= -(1 << 15) && a < (1 << 15) && b >= -(1 << 15) && b < (1 << 15), |_a: i128, _b: i128| true);
 // @h name=c12_div_u8_exact props=C12 tier=quick
 // @h name=c12_div_u8_err props=C12,C15 tier=quick
-binop!(c12_div_u8_exact, c12_div_u8_err, Div, PhysicalU8, u8, uint8, checked_div);
+binop!(c12_div_u8_exact, c12_div_u8_err, Div, PhysicalU8, u8, uint8, |a: u8, b: u8| a.checked_div(b), |_a: u8, _b: u8| true, |_a: u8, _b: u8| true);
 // @h name=c12_div_u16_exact props=C12 tier=thorough
 // @h name=c12_div_u16_err props=C12,C15 tier=thorough
-binop!(c12_div_u16_exact, c12_div_u16_err, Div, PhysicalU16, u16, uint16, checked_div);
+binop!(c12_div_u16_exact, c12_div_u16_err, Div, PhysicalU16, u16, uint16, |a: u16, b: u16| a.checked_div(b), |_a: u16, _b: u16| true, |_a: u16, _b: u16| true);
 // @h name=c12_div_u32_exact props=C12 tier=thorough
 // @h name=c12_div_u32_err props=C12,C15 tier=thorough
-binop!(c12_div_u32_exact, c12_div_u32_err, Div, PhysicalU32, u32, uint32, checked_div);
+binop!(c12_div_u32_exact, c12_div_u32_err, Div, PhysicalU32, u32, uint32, |a: u32, b: u32| a.checked_div(b), |a: u32, b: u32| a < (1 << 15) && b < (1 << 15), |_a: u32, _b: u32| true);
 // @h name=c12_div_u64_exact props=C12 tier=thorough
 // @h name=c12_div_u64_err props=C12,C15 tier=thorough
-binop!(c12_div_u64_exact, c12_div_u64_err, Div, PhysicalU64, u64, uint64, checked_div);
+binop!(c12_div_u64_exact, c12_div_u64_err, Div, PhysicalU64, u64, uint64, |a: u64, b: u64| a.checked_div(b), |a: u64, b: u64| a < (1 << 15) && b < (1 << 15), |_a: u64, _b: u64| true);
 // @h name=c12_div_u128_exact props=C12 tier=thorough
 // @h name=c12_div_u128_err props=C12,C15 tier=thorough
-binop!(c12_div_u128_exact, c12_div_u128_err, Div, PhysicalU128, u128, uint128, checked_div);
+binop!(c12_div_u128_exact, c12_div_u128_err, Div, PhysicalU128, u128, uint128, |a: u128, b: u128| a.checked_div(b), |a: u128, b: u128| a < (1 << 15) && b < (1 << 15), |_a: u128, _b: u128| true);
 // @h name=c12_rem_i8_exact props=C12 tier=quick
 // @h name=c12_rem_i8_err props=C12,C15 tier=quick
-binop!(c12_rem_i8_exact, c12_rem_i8_err, Rem, PhysicalI8, i8, int8, checked_rem);
+binop!(c12_rem_i8_exact, c12_rem_i8_err, Rem, PhysicalI8, i8, int8, |a: i8, b: i8| if b == 0 { None } else { Some(a.wrapping_rem(b)) }, |a: i8, b: i8| !(a == <i8>::MIN && b == -1), |_a: i8, _b: i8| true);
+// @h name=c12_rem_i8_min_neg1 props=C12,C15 tier=quick
+rem_corner!(c12_rem_i8_min_neg1, PhysicalI8, i8, int8);
 // @h name=c12_rem_i16_exact props=C12 tier=thorough
 // @h name=c12_rem_i16_err props=C12,C15 tier=thorough
-binop!(c12_rem_i16_exact, c12_rem_i16_err, Rem, PhysicalI16, i16, int16, checked_rem);
+binop!(c12_rem_i16_exact, c12_rem_i16_err, Rem, PhysicalI16, i16, int16, |a: i16, b: i16| if b == 0 { None } else { Some(a.wrapping_rem(b)) }, |a: i16, b: i16| !(a == <i16>::MIN && b == -1), |_a: i16, _b: i16| true);
+// @h name=c12_rem_i16_min_neg1 props=C12,C15 tier=thorough
+rem_corner!(c12_rem_i16_min_neg1, PhysicalI16, i16, int16);
 // @h name=c12_rem_i32_exact props=C12 tier=thorough
 // @h name=c12_rem_i32_err props=C12,C15 tier=thorough
-binop!(c12_rem_i32_exact, c12_rem_i32_err, Rem, PhysicalI32, i32, int32, checked_rem);
+binop!(c12_rem_i32_exact, c12_rem_i32_err, Rem, PhysicalI32, i32, int32, |a: i32, b: i32| if b == 0 { None } else { Some(a.wrapping_rem(b)) }, |a: i32, b: i32| a >= -(1 << 15) && a < (1 << 15) && b >= -(1 << 15) && b < (1 << 15) && !(a == <i32>::MIN && b == -1), |_a: i32, _b: i32| true);
+// @h name=c12_rem_i32_min_neg1 props=C12,C15 tier=thorough
+rem_corner!(c12_rem_i32_min_neg1, PhysicalI32, i32, int32);
 // @h name=c12_rem_i64_exact props=C12 tier=thorough
 // @h name=c12_rem_i64_err props=C12,C15 tier=thorough
-binop!(c12_rem_i64_exact, c12_rem_i64_err, Rem, PhysicalI64, i64, int64, checked_rem);
+binop!(c12_rem_i64_exact, c12_rem_i64_err, Rem, PhysicalI64, i64, int64, |a: i64, b: i64| if b == 0 { None } else { Some(a.wrapping_rem(b)) }, |a: i64, b: i64| a >= -(1 << 15) && a < (1 << 15) && b >= -(1 << 15) && b < (1 << 15) && !(a == <i64>::MIN && b == -1), |_a: i64, _b: i64| true);
+// @h name=c12_rem_i64_min_neg1 props=C12,C15 tier=thorough
+rem_corner!(c12_rem_i64_min_neg1, PhysicalI64, i64, int64);
 // @h name=c12_rem_i128_exact props=C12 tier=thorough
 // @h name=c12_rem_i128_err props=C12,C15 tier=thorough
-binop!(c12_rem_i128_exact, c12_rem_i128_err, Rem, PhysicalI128, i128, int128, checked_rem);
-// @h name=c12_rem_u8_exact props=C12 tier=thorough
-// @h name=c12_rem_u8_err props=C12,C15 tier=thorough
-binop!(c12_rem_u8_exact, c12_rem_u8_err, Rem, PhysicalU8, u8, uint8, checked_rem);
-// @h name=c12_rem_u16_exact props=C12 tier=quick
-// @h name=c12_rem_u16_err props=C12,C15 tier=quick
-binop!(c12_rem_u16_exact, c12_rem_u16_err, Rem, PhysicalU16, u16, uint16, checked_rem);
+binop!(c12_rem_i128_exact, c12_rem_i128_err, Rem, PhysicalI128, i128, int128, |a: i128, b: i128| if b == 0 { None } else { Some(a.wrapping_rem(b)) }, |a: i128, b: i128| a >= -(1 << 15) && a < (1 << 15) && b >= -(1 << 15) && b < (1 << 15) && !(a == <i128>::MIN && b == -1), |_a: i128, _b: i128| true);
+// @h name=c12_rem_i128_min_neg1 props=C12,C15 tier=thorough
+rem_corner!(c12_rem_i128_min_neg1, PhysicalI128, i128, int128);
+// @h name=c12_rem_u8_exact props=C12 tier=quick
+// @h name=c12_rem_u8_err props=C12,C15 tier=quick
+binop!(c12_rem_u8_exact, c12_rem_u8_err, Rem, PhysicalU8, u8, uint8, |a: u8, b: u8| if b == 0 { None } else { Some(a.wrapping_rem(b)) }, |_a: u8, _b: u8| true, |_a: u8, _b: u8| true);
+// @h name=c12_rem_u16_exact props=C12 tier=thorough
+// @h name=c12_rem_u16_err props=C12,C15 tier=thorough
+binop!(c12_rem_u16_exact, c12_rem_u16_err, Rem, PhysicalU16, u16, uint16, |a: u16, b: u16| if b == 0 { None } else { Some(a.wrapping_rem(b)) }, |_a: u16, _b: u16| true, |_a: u16, _b: u16| true);
 // @h name=c12_rem_u32_exact props=C12 tier=thorough
 // @h name=c12_rem_u32_err props=C12,C15 tier=thorough
-binop!(c12_rem_u32_exact, c12_rem_u32_err, Rem, PhysicalU32, u32, uint32, checked_rem);
+binop!(c12_rem_u32_exact, c12_rem_u32_err, Rem, PhysicalU32, u32, uint32, |a: u32, b: u32| if b == 0 { None } else { Some(a.wrapping_rem(b)) }, |a: u32, b: u32| a < (1 << 15) && b < (1 << 15), |_a: u32, _b: u32| true);
 // @h name=c12_rem_u64_exact props=C12 tier=thorough
 // @h name=c12_rem_u64_err props=C12,C15 tier=thorough
-binop!(c12_rem_u64_exact, c12_rem_u64_err, Rem, PhysicalU64, u64, uint64, checked_rem);
+binop!(c12_rem_u64_exact, c12_rem_u64_err, Rem, PhysicalU64, u64, uint64, |a: u64, b: u64| if b == 0 { None } else { Some(a.wrapping_rem(b)) }, |a: u64, b: u64| a < (1 << 15) && b < (1 << 15), |_a: u64, _b: u64| true);
 // @h name=c12_rem_u128_exact props=C12 tier=thorough
 // @h name=c12_rem_u128_err props=C12,C15 tier=thorough
-binop!(c12_rem_u128_exact, c12_rem_u128_err, Rem, PhysicalU128, u128, uint128, checked_rem);
+binop!(c12_rem_u128_exact, c12_rem_u128_err, Rem, PhysicalU128, u128, uint128, |a: u128, b: u128| if b == 0 { None } else { Some(a.wrapping_rem(b)) }, |a: u128, b: u128| a < (1 << 15) && b < (1 << 15), |_a: u128, _b: u128| true);
 // @h name=c12_neg_i8_exact props=C12 tier=thorough
 // @h name=c12_neg_i8_err props=C12,C15 tier=thorough
 negop!(c12_neg_i8_exact, c12_neg_i8_err, PhysicalI8, i8, int8);
